@@ -376,13 +376,160 @@ def promo_session(rng, ctx, f, roles):
     s.heap_ok = s.check_heap(); s.close()
     return s
 
+# ------------------------------------------------------------------ complex numbers ASSEMBLED from uncertain reals
+# Z = A + c*B (A, B uncertain reals of different roles, c imaginary), A + 0j, A*(2+1j), ucomplex + A, ...: the two
+# components then carry DIFFERENT u / d / i key sets (one may be empty), unlike anything built from ucomplex().
+AROLES = ['elem', 'dep', 'ensdep', 'interm', 'interm2', 'const', 'temp']
+
+def areal(s, rng, role, x):
+    """an uncertain real of the given role with value x; returns its slot"""
+    if role != 'interm2': return ureal_role(s, rng, role, x)
+    # an intermediate that depends on an elementary input and on ANOTHER intermediate
+    n0 = len(s.slots)
+    s.ureal(x - 0.25, 0.03, rng.choice([math.inf, 6.0]), indep=rng.random() < 0.7)
+    s.ureal(0.5, 0.04); s.bin('mul', ('ref', n0 + 1), ('num', 0.5)); s.result(n0 + 2, label=rng.choice([None, 21]))
+    s.bin('add', ('ref', n0), ('ref', n0 + 3)); s.result(n0 + 4, label=rng.choice([None, 22]))
+    return n0 + 5
+
+ASM_FORMS = ['a+cj*b', 'b*cj+a', 'a+0j', 'a*(c)', 'uc+a', 'a-uc', 'cj*b']
+
+def assemble(s, rng, form, a, b):
+    """build a complex object from the reals in slots a (-> real part) and b (-> imaginary part); returns its slot"""
+    before = set(s.cplx_slots())
+    cj = rng.choice([2j, 0.5j, -1.5j, 1j])
+    def last():
+        new = [i for i in s.cplx_slots() if i not in before]
+        return new[-1] if new else None
+    if form == 'a+cj*b':
+        s.cbin('mul', ('n', cj), ('r', b)); t = last()
+        if t is not None: s.cbin('add', ('r', a), ('c', t))
+    elif form == 'b*cj+a':
+        s.cbin('mul', ('r', b), ('n', cj)); t = last()
+        if t is not None: s.cbin(rng.choice(['add', 'sub']), ('c', t), ('r', a))
+    elif form == 'a+0j':
+        s.cbin(rng.choice(['add', 'sub']), ('r', a), ('n', rng.choice([0j, 2j, 0.5 + 0j])))
+    elif form == 'a*(c)':
+        s.cbin(rng.choice(['mul', 'div']), ('r', a), ('n', rng.choice([2 + 1j, 0.5 - 2j, 3 + 0j])))
+    elif form == 'uc+a':
+        s.ucomplex(rng.choice(QUADS), (0.5, 0.25), indep=rng.random() < 0.7); t = last()
+        if t is not None: s.cbin(rng.choice(['add', 'mul']), ('c', t), ('r', a))
+    elif form == 'a-uc':
+        s.ucomplex(rng.choice(QUADS), (0.5, 0.25)); t = last()
+        if t is not None: s.cbin(rng.choice(['sub', 'div']), ('r', a), ('c', t))
+    elif form == 'cj*b':
+        s.cbin('mul', ('n', cj), ('r', b))
+    z = last()
+    if z is not None and rng.random() < 0.15:
+        s.cresult(z, label=rng.choice([None, 31])); z = last()
+    return z
+
+def _inputs(s, upto):
+    """slots (first occurrence) of the elementary / intermediate / constant uncertain reals declared so far"""
+    seen = set(); out = []
+    for i in range(upto):
+        o = s.slots[i]
+        if isinstance(o, s.UR) and id(o) not in seen and (o.is_elementary or o.is_intermediate or s.lib._is_uncertain_real_constant(o)):
+            seen.add(id(o)); out.append(i)
+    return out
+
+def _query(s, rng, y, ins, real_y=False, cins=(), full=False):
+    """sensitivity and u_component of result y w.r.t. the declared real inputs: every INTERMEDIATE one, and (unless
+    full) a sample of the elementary / constant ones"""
+    if not full:
+        inter = [i for i in ins if s.slots[i].is_intermediate]
+        rest = [i for i in ins if not s.slots[i].is_intermediate]
+        ins = inter + rng.sample(rest, min(len(rest), 2))
+    for x in ins:
+        both = full or rng.random() < 0.5
+        if real_y:
+            s.sens(y, x)
+            if both: s.ucomp(y, x)
+        else:
+            if both or rng.random() < 0.5: s.csens(('c', y), ('r', x))
+            if both or rng.random() < 0.7: s.cucomp(('c', y), ('r', x))
+    for x in cins:
+        if real_y:
+            s.csens(('r', y), ('c', x))
+        else:
+            s.cucomp(('c', y), ('c', x))
+
+def asm_un_session(rng, ctx, ra, rb, form, funs):
+    s = CSession(ctx); s.tag = 'asm:un'
+    xa, xb = rng.choice([(0.65, -0.9), (-0.4, 0.7), (1.3, 0.45), (-0.8, -0.35)])
+    a = areal(s, rng, ra, xa); b = areal(s, rng, rb, xb)
+    z = assemble(s, rng, form, a, b)
+    if z is not None:
+        ins = _inputs(s, len(s.slots))
+        cins = [i for i in s.cplx_slots() if i != z and (s.cobj(i).real.is_elementary or s.cobj(i).real.is_intermediate)][:1]
+        _query(s, rng, z, ins, cins=cins, full=True)
+        for f in funs:
+            n0 = len(s.slots); s.cun(f, z)
+            if not isinstance(s.slots[n0], s.UR): continue
+            _query(s, rng, n0, ins, real_y=f in REAL_RESULT, cins=cins)
+            if rng.random() < 0.2 and f not in REAL_RESULT:
+                # a second step: the chain goes on through the assembled structure
+                n1 = len(s.slots); s.cun(rng.choice(['exp', 'conjugate', 'sqrt']), n0)
+                if isinstance(s.slots[n1], s.UR): _query(s, rng, n1, ins)
+    s.heap_ok = s.check_heap(); s.close()
+    return s
+
+def asm_bin_session(rng, ctx, roles, forms):
+    """binary operators on assembled operands: both operands assembled with DIFFERENT intermediate sets, or an
+    assembled operand with an elementary ucomplex / an intermediate ureal / a number, either side"""
+    s = CSession(ctx); s.tag = 'asm:bin'
+    Z = []
+    for (ra, rb), form in zip(roles, forms):
+        a = areal(s, rng, ra, rng.choice([0.65, -0.4, 1.3])); b = areal(s, rng, rb, rng.choice([-0.9, 0.7, 0.45]))
+        z = assemble(s, rng, form, a, b)
+        if z is not None: Z.append(z)
+    s.ucomplex(rng.choice(QUADS), (0.5, 0.25)); e = max(s.cplx_slots())
+    r = areal(s, rng, rng.choice(['interm', 'interm2', 'elem']), 1.5)
+    ins = _inputs(s, len(s.slots))
+    cins = [e]
+    for f in CBINOPS:
+        pairs = []
+        if len(Z) >= 2: pairs += [(('c', Z[0]), ('c', Z[1])), (('c', Z[1]), ('c', Z[0]))]
+        for z in Z[:2]:
+            pairs += [(('c', z), ('c', e)), (('c', e), ('c', z)), (('c', z), ('r', r)), (('r', r), ('c', z)),
+                      (('c', z), ('n', rng.choice([2, 0.5, 2 - 1j, 1j]))), (('n', rng.choice([2, 0.5, 2 - 1j, 1j])), ('c', z)),
+                      (('c', z), ('c', z))]
+        rng.shuffle(pairs)
+        for A, B in pairs[:6]:
+            n0 = len(s.slots); s.cbin(f, A, B)
+            if isinstance(s.slots[n0], s.UR) and s.cobj(n0) is not None:
+                _query(s, rng, n0, ins, cins=cins)
+    s.heap_ok = s.check_heap(); s.close()
+    return s
+
+def asm_sessions(rng, nxt, scale=1):
+    out = []
+    # unary: every function behind every (real-part role, imaginary-part role) class, forms rotating
+    pairs = [(a, b) for a in AROLES for b in AROLES]
+    rng.shuffle(pairs)
+    funs = list(CUNOPS)
+    must = [('interm', 'elem'), ('elem', 'interm'), ('interm', 'interm2'), ('interm2', 'const'), ('const', 'interm'),
+            ('dep', 'interm'), ('interm', 'ensdep'), ('temp', 'interm2')]
+    chosen = must + [p for p in pairs if p not in must][:4 * scale]
+    for k, (ra, rb) in enumerate(chosen):
+        form = ASM_FORMS[k % 2] if k < len(must) else rng.choice(ASM_FORMS)
+        rng.shuffle(funs)
+        out.append(asm_un_session(rng, nxt(), ra, rb, form, list(funs) if k < len(must) else funs[:11]))
+    for k in range(4 * scale):
+        roles = [(rng.choice(AROLES), rng.choice(AROLES)) for _ in range(2)]
+        if k % 2 == 0: roles[0] = ('interm', 'elem'); roles[1] = ('elem', 'interm2')
+        out.append(asm_bin_session(rng, nxt(), roles, [rng.choice(ASM_FORMS[:2]), rng.choice(ASM_FORMS)]))
+    return out
+
 # ------------------------------------------------------------------ the reusable entry point
 RULE = ('systematic: each of the 22 complex functions/unary operators at %d points (four quadrants, both sides of and ON every '
         'branch cut by exact offsets 2^-30 and signed zeros, zero, huge/small modulus) with operand kinds rotating over '
         '{elementary independent, correlated (4-element covariance), dependent, ensemble member (multiple_ucomplex), intermediate, '
         'constant}; each of + - * / ** for every ordered pair of operand kinds incl. ureal / constant / intermediate ureal / int / '
         'float / complex; every ureal role x complex literal x operator on both sides (promotion to complex, ** leaving the reals, '
-        'exact-zero left operands); degrees of freedom: willink_hall and the real welch_satterthwaite through complex pairs '
+        'exact-zero left operands); complex numbers ASSEMBLED from uncertain reals of every role pair (elementary / dependent / ensemble / '
+        'intermediate / nested intermediate / constant / temporary, so the two components carry different u, d, i key sets, one possibly '
+        'empty) through every unary function and binary operator (both operands assembled, or with ucomplex / ureal / number, either side) '
+        'with sensitivity and u_component w.r.t. every elementary AND intermediate input; degrees of freedom: willink_hall and the real welch_satterthwaite through complex pairs '
         '(independent / ensemble / partially used / real-ensemble inputs, every guard of UncertainComplex.set_correlation, conjugate '
         'and caches, failing dof() then dof()); plus random mixed programs with a malformed stream; after every operation the value and '
         'the u/d/i component vectors of both component reals, reporting.sensitivity and u_component (4-tuples), x/u/v/r/df reads and '
@@ -394,8 +541,8 @@ def build_sessions(rng, profile, tier='quick', n=None):
     def nxt():
         ctx[0] += 1; return ctx[0]
     reps = 1 if tier == 'quick' else 6
-    want = {'all': ('fun', 'op', 'promo', 'dof', 'rand'), 'functions': ('fun',), 'operators': ('op',), 'random': ('rand',),
-            'dof': ('dof',), 'promotion': ('promo',), 'value': ('fun', 'op', 'promo'), 'history': ('dof', 'rand')}[profile]
+    want = {'all': ('fun', 'op', 'promo', 'asm', 'dof', 'rand'), 'assembled': ('asm',), 'functions': ('fun',), 'operators': ('op',), 'random': ('rand',),
+            'dof': ('dof',), 'promotion': ('promo',), 'value': ('fun', 'op', 'promo', 'asm'), 'history': ('dof', 'rand')}[profile]
     for rep in range(reps):
         if 'fun' in want:
             for f in CUNOPS:
@@ -412,6 +559,8 @@ def build_sessions(rng, profile, tier='quick', n=None):
             for f in CBINOPS:
                 R = list(UROLES); rng.shuffle(R)
                 sessions.append(promo_session(rng, nxt(), f, R[:3])); sessions.append(promo_session(rng, nxt(), f, R[3:]))
+        if 'asm' in want:
+            sessions.extend(asm_sessions(rng, nxt, 1 if profile != 'assembled' else 2))
         if 'dof' in want:
             for v in DOF_VARIANTS:
                 for _ in range(n or (5 if profile == 'all' else 12)):
